@@ -61,6 +61,13 @@ impl<L: Language, N: Analysis<L>> EGraph<L, N> {
             assert_eq!(from.id, proof.l.id);
         }
 
+        #[cfg(slotted_egraphs_verif)]
+        {
+            crate::verif::probe("shrink_slots");
+            if !self.classes[&from.id].group.is_trivial() {
+                crate::verif::probe("shrink_slots_with_symmetry");
+            }
+        }
         let origcap = cap.iter().map(|x| from.m.inverse()[*x]).collect();
         self.record_redundancy_witness(from.id, &origcap, proof);
 
@@ -138,6 +145,13 @@ impl<L: Language, N: Analysis<L>> EGraph<L, N> {
         }
 
         while let Some(sh) = self.pending.keys().cloned().next() {
+            #[cfg(slotted_egraphs_verif)]
+            {
+                crate::verif::tick();
+                if self.pending.len() >= 2 {
+                    crate::verif::probe("rebuild_pop_with_choice");
+                }
+            }
             let pending_ty = self.pending.remove(&sh).unwrap();
             self.handle_pending(sh, pending_ty);
 
@@ -147,6 +161,8 @@ impl<L: Language, N: Analysis<L>> EGraph<L, N> {
         }
 
         while let Some(i) = self.modify_queue.pop() {
+            #[cfg(slotted_egraphs_verif)]
+            crate::verif::tick();
             let i = self.find_id(i);
             N::modify(self, i);
         }
@@ -183,6 +199,8 @@ impl<L: Language, N: Analysis<L>> EGraph<L, N> {
         // i.m :: slots(i) -> X
         // i_orig.m :: slots(i_orig) -> X
         if !i.slots().is_subset(&enode.slots()) {
+            #[cfg(slotted_egraphs_verif)]
+            crate::verif::probe("shrink_in_upwards_merge");
             self.handle_shrink_in_upwards_merge(src_id);
 
             enode = self.find_enode(&enode);
@@ -193,6 +211,8 @@ impl<L: Language, N: Analysis<L>> EGraph<L, N> {
 
         // upwards merging found a match!
         if self.lookup_internal(&t).is_some() {
+            #[cfg(slotted_egraphs_verif)]
+            crate::verif::probe("upward_merge_hit");
             self.handle_congruence(self.pc_from_src_id(src_id));
             return;
         }
@@ -281,6 +301,8 @@ impl<L: Language, N: Analysis<L>> EGraph<L, N> {
                 }
                 let grp = &mut self.classes.get_mut(&i).unwrap().group;
                 if grp.add(proven_perm) {
+                    #[cfg(slotted_egraphs_verif)]
+                    crate::verif::probe("self_symmetry_found");
                     self.touched_class(i, PendingType::Full);
                 }
             }
